@@ -622,6 +622,10 @@ func (x *Exec) checkPost(st *State, rs []Val) {
 	ev := &Env{x: x, st: st, vars: vars, oldH: fr.oldHeaps, pkg: x.pkgOf(x.fn), res: res}
 	if x.ct != nil {
 		for i, e := range x.ct.Ensures {
+			if e.Label == "function" && x.ct.FunctionOf != "" {
+				// definitional: the spec function names this function's result; justified by the determinism check
+				continue
+			}
 			st.check(fmt.Sprintf("%s/post/%s", x.key, clauseName(e, i)), ev.evalClause(e), "postcondition")
 		}
 	}
